@@ -48,6 +48,10 @@ type Record struct {
 	// NoMatch[i]: the record lacks the field scripted action i is conditioned on (match_fields), so the
 	// processor calls action i for it only while that action is busy (waiting for the next sequential event)
 	NoMatch []bool `json:"no_match,omitempty"`
+	// AtHeartbeat: the record is handed to Pipeline.In from inside the streamer heartbeat's gate, i.e.
+	// between the heartbeat's snapshot of blocked streams and its tryUnblock call (falls back to a
+	// normal feed when no heartbeat with a blocked stream comes by within a second)
+	AtHeartbeat bool `json:"at_heartbeat,omitempty"`
 }
 
 // Kid is a child of a split.
@@ -248,6 +252,9 @@ func GenPlan(t *rapid.T, g GenOpts) Plan {
 						r.Kids = append(r.Kids, kid)
 					}
 				}
+			}
+			if holder >= 0 && i > 0 && rapid.IntRange(0, 11).Draw(t, "at_hb") == 0 {
+				r.AtHeartbeat = true
 			}
 			r.Pad = rapid.SampledFrom([]int{0, 0, 0, 10, 100}).Draw(t, "pad")
 			if rapid.IntRange(0, 5).Draw(t, "hasgap") == 0 {
